@@ -148,11 +148,18 @@ fn gen_plan(rng: &mut Rng, lib: &[LibPkg], n_nodes: usize) -> Plan {
                     g.types()[g[pid].ty()].imports.iter().map(|(n, k)| (n.clone(), *k)).collect();
                 let wit = g[pid].name().starts_with("wit");
                 cands.retain(|(_, k)| !wit || matches!(k, ItemKind::Instance(_)));
+                if rng.chance(1, 2) {
+                    // prefer versioned names: an explicit import on the track of an implicit one
+                    let v: Vec<(String, ItemKind)> = cands.iter().filter(|(n, _)| n.contains('@')).cloned().collect();
+                    if !v.is_empty() {
+                        cands = v;
+                    }
+                }
                 if cands.is_empty() {
                     continue;
                 }
                 let (orig, kind) = rng.pick(&cands).clone();
-                let name = if rng.chance(1, 3) {
+                let name = if rng.chance(1, 2) {
                     orig.clone()
                 } else {
                     n_imp += 1;
